@@ -151,3 +151,32 @@ def case_sandbox(case_seed):
         finally:
             torch.set_default_dtype(default_dtype)
             settings_restore(PRISTINE)
+
+
+# ------------------------------------------------------------------------------------------------
+# which numerical routine ran: the library logs it through settings.verbose_linalg; capture the
+# messages instead of printing them
+# ------------------------------------------------------------------------------------------------
+import logging  # noqa: E402
+
+LINALG_LOG = []
+
+
+class _Capture(logging.Handler):
+    def emit(self, record):
+        LINALG_LOG.append(record.getMessage())
+
+
+settings.verbose_linalg.logger.handlers = [_Capture()]
+settings.verbose_linalg.logger.propagate = False
+
+
+def linalg_paths():
+    """set of routine names logged since the last call"""
+    out = set()
+    for m in LINALG_LOG:
+        for name in ("CG", "Cholesky", "Lanczos", "MINRES", "Pivoted Cholesky", "symeig", "eigvalsh", "SVD", "QR"):
+            if f"Running {name}" in m or f"Running torch.linalg.{name}" in m:
+                out.add(name)
+    del LINALG_LOG[:]
+    return out
